@@ -348,3 +348,19 @@ _MORE = {
 }
 for _k, _v in _MORE.items():
     EXTRA[_k] = (EXTRA[_k] + " " + _v) if _k in EXTRA else _v
+
+
+# added after the fifth round of seeded changes (DESIGN.md section 0.6)
+_ROUND5 = {
+    "C03": "Interleavings run on a real event loop: every harness await point parks its coroutine on a future that only the controller resolves once the loop is idle, so code under test may use asyncio primitives (ensure_future, shared futures, locks) and is still scheduled deterministically.",
+    "C08": "A third of the successful cases also edit every parent between two renders of one leaf Template object (plain dict loader): the second page is the resolution of the edited chain.",
+    "C09": "Scheduled interleavings run on the real-event-loop controller as in C03.",
+    "C10": "A hash bound under the same name on two channels carries its channel's mark, so merging one into the other instead of shadowing it shows as a mutation.",
+    "C12": "Bounded-exhaustive boolean trees: every expression with up to three binary operators from {and, or, ==, !=, contains, <} over distinct variables and `not` at up to one (quick, 9k) / two (thorough, 32k) nodes, written fully parenthesised, x 24 data sets; integer literals at the int-to-str digit limit in exponent and plain spelling, both signs.",
+    "C13": "Traversal walks rewritten with backslashes (all, first, last separator; `..\\`).",
+    "C16": "Lambda bodies (comparison, negation, and/or, membership) over a property that is missing for some items only, through every lambda-taking filter.",
+    "C18": "Adjacency clause: ~6k flat sources per quick run in which every marker that has no literal text on its side (next to other markup, inside a comment, at either end of the template) is re-drawn - the output must be identical character for character.",
+    "C19": "has <=> (find_index != nil) <=> (where | size > 0) in the lambda forms, with predicates that are true for nil / false elements.",
+}
+for _k, _v in _ROUND5.items():
+    EXTRA[_k] = (EXTRA[_k] + " " + _v) if _k in EXTRA else _v
